@@ -400,6 +400,15 @@ func (g *heapGen) args(h *heapRun, op string, recv int, o *obj) *Step {
 		}
 		if n > 0 && g.rng.Intn(4) == 0 {
 			s, _ := o.sb.GetSequenceCharById(g.rng.Intn(n))
+			s = append([]byte{}, s...)
+			if g.rng.Intn(3) == 0 {
+				// the stored residues up to letter case
+				for j := range s {
+					if g.rng.Intn(2) == 0 && (s[j]|0x20) >= 'a' && (s[j]|0x20) <= 'z' {
+						s[j] ^= 0x20
+					}
+				}
+			}
 			a["seq"] = toIface(b2i(s))
 		} else {
 			a["seq"] = toIface(g.seq(g.alphaFor(alph), l))
